@@ -911,6 +911,52 @@ func c01ReadImpl(path string) (res c01Read) {
 	return
 }
 
+// c01Build: the document written in a random physical layout
+func c01Build(rng *RNG, d *c01Doc) (c01Phys, *c01Node, *c01Builder) {
+	b := &c01Builder{rng: rng, eol: []string{"\n", "\n", "\r\n", "\r"}[rng.Intn(4)], tags: map[string]bool{}}
+	b.tags["eol:"+map[string]string{"\n": "LF", "\r\n": "CRLF", "\r": "CR"}[b.eol]] = true
+	// fonts and resource sets
+	fontIDs := make([]int, len(d.fonts))
+	for i, f := range d.fonts {
+		fontIDs[i] = b.fontObj(f, i)
+	}
+	resIDs := make([]string, len(d.resSets))
+	for i, set := range d.resSets {
+		var fs []string
+		for k, f := range set {
+			fs = append(fs, fmt.Sprintf("/F%d %s", k+1, c01Ref(fontIDs[f])))
+		}
+		fd := "<< " + strings.Join(fs, " ") + " >>"
+		if rng.Chance(1, 3) {
+			fd = c01Ref(b.add(&c01Obj{body: fd}))
+			b.tags["resources:font-dict-by-reference"] = true
+		}
+		body := "<< /Font " + fd + " /ProcSet [/PDF /Text] >>"
+		if rng.Bool() {
+			resIDs[i] = c01Ref(b.add(&c01Obj{body: body}))
+		} else {
+			resIDs[i] = body
+		}
+	}
+	idx := make([]int, len(d.pages))
+	for i := range idx {
+		idx[i] = i
+	}
+	root := b.tree(idx, 0)
+	b.place(d, root, nil, nil, -1, 0)
+	b.tags[fmt.Sprintf("tree-depth:%d", root.depth())] = true
+	rootID := b.emit(d, root, -1, resIDs)
+	cat := b.add(&c01Obj{body: "<< /Type /Catalog /Pages " + c01Ref(rootID) + " >>"})
+	ph := b.write(cat, true)
+	return ph, root, b
+}
+
+// c01Physical: just the bytes
+func c01Physical(rng *RNG, d *c01Doc) []byte {
+	ph, _, _ := c01Build(rng, d)
+	return ph.data
+}
+
 func init() {
 	props["C01"] = func(r *Run, rng *RNG) {
 		thorough := r.Tier == "thorough"
@@ -924,41 +970,7 @@ func init() {
 			d := c01GenDoc(rng)
 			layouts := 2
 			for li := 0; li < layouts; li++ {
-				b := &c01Builder{rng: rng, eol: []string{"\n", "\n", "\r\n", "\r"}[rng.Intn(4)], tags: map[string]bool{}}
-				b.tags["eol:"+map[string]string{"\n": "LF", "\r\n": "CRLF", "\r": "CR"}[b.eol]] = true
-				// fonts and resource sets
-				fontIDs := make([]int, len(d.fonts))
-				for i, f := range d.fonts {
-					fontIDs[i] = b.fontObj(f, i)
-				}
-				resIDs := make([]string, len(d.resSets))
-				for i, set := range d.resSets {
-					var fs []string
-					for k, f := range set {
-						fs = append(fs, fmt.Sprintf("/F%d %s", k+1, c01Ref(fontIDs[f])))
-					}
-					fd := "<< " + strings.Join(fs, " ") + " >>"
-					if rng.Chance(1, 3) {
-						fd = c01Ref(b.add(&c01Obj{body: fd}))
-						b.tags["resources:font-dict-by-reference"] = true
-					}
-					body := "<< /Font " + fd + " /ProcSet [/PDF /Text] >>"
-					if rng.Bool() {
-						resIDs[i] = c01Ref(b.add(&c01Obj{body: body}))
-					} else {
-						resIDs[i] = body
-					}
-				}
-				idx := make([]int, len(d.pages))
-				for i := range idx {
-					idx[i] = i
-				}
-				root := b.tree(idx, 0)
-				b.place(&d, root, nil, nil, -1, 0)
-				b.tags[fmt.Sprintf("tree-depth:%d", root.depth())] = true
-				rootID := b.emit(&d, root, -1, resIDs)
-				cat := b.add(&c01Obj{body: "<< /Type /Catalog /Pages " + c01Ref(rootID) + " >>"})
-				ph := b.write(cat, true)
+				ph, root, b := c01Build(rng, &d)
 				path := tmpFile(r, ".pdf", ph.data)
 				var tags []string
 				for t := range b.tags {
